@@ -182,6 +182,13 @@ type vWire struct {
 	partialAt   int
 	partialN    int
 	writes      int // Write calls that got as far as the socket
+	rdeadline   bool // a read deadline is set (SetReadDeadline / SetDeadline with a non-zero time)
+	wdeadline   bool // a write deadline is set
+	stallAt     int  // if a read deadline is set: the peer stalls once after this many bytes of the stream (0: never) ...
+	stalled     bool // ... it has
+	stallNext   bool // ... and the next Read reports the timeout
+	readPos     int  // bytes delivered so far
+	partialDL   bool // the partial write below happens only if a write deadline is set
 	more        chan struct{} // closed by feedEOF: a Read blocked on a live wire looks again
 	eof         bool          // set by feedEOF: once the chunks are exhausted Read reports EOF instead of waiting
 }
@@ -230,8 +237,19 @@ func (w *vWire) Read(p []byte) (int, error) {
 		}
 		return 0, io.EOF
 	}
-	n := copy(p, w.chunks[w.pos][w.off:])
+	if w.stallNext {
+		// the deadline passes while the peer is silent in the middle of a line
+		w.stallNext = false
+		return 0, vTimeoutErr{}
+	}
+	src := w.chunks[w.pos][w.off:]
+	if w.rdeadline && !w.stalled && w.stallAt > w.readPos && w.stallAt-w.readPos <= len(src) {
+		src = src[:w.stallAt-w.readPos]
+		w.stalled, w.stallNext = true, true
+	}
+	n := copy(p, src)
 	w.off += n
+	w.readPos += n
 	return n, nil
 }
 
@@ -259,10 +277,17 @@ func (w *vWire) Write(p []byte) (int, error) {
 		w.failWriteAt = -2
 		return 0, errors.New("vWire: write failed")
 	}
-	if w.partialOn && w.partialAt == w.writes {
+	if w.partialOn && w.partialAt == w.writes && (w.wdeadline || !w.partialDL) {
 		// a slow peer: the deadline passes after the first partialN bytes were accepted
+		// (partialN < 0: all but the last -partialN bytes)
 		w.writes++
 		n := w.partialN
+		if n < 0 {
+			n = len(p) + n
+			if n < 0 {
+				n = 0
+			}
+		}
 		if n > len(p) {
 			n = len(p)
 		}
@@ -292,9 +317,12 @@ func (w *vWire) Close() error {
 }
 func (w *vWire) LocalAddr() net.Addr                { return nil }
 func (w *vWire) RemoteAddr() net.Addr               { return nil }
-func (w *vWire) SetDeadline(t time.Time) error      { return nil }
-func (w *vWire) SetReadDeadline(t time.Time) error  { return nil }
-func (w *vWire) SetWriteDeadline(t time.Time) error { return nil }
+func (w *vWire) SetDeadline(t time.Time) error {
+	w.rdeadline, w.wdeadline = !t.IsZero(), !t.IsZero()
+	return nil
+}
+func (w *vWire) SetReadDeadline(t time.Time) error  { w.rdeadline = !t.IsZero(); return nil }
+func (w *vWire) SetWriteDeadline(t time.Time) error { w.wdeadline = !t.IsZero(); return nil }
 
 // vDrain empties conn.out without blocking.
 func vDrain(conn *Conn) []string {
